@@ -75,6 +75,32 @@ func c14IndexAssigns(body ast.Node, mapName string) []*ast.AssignStmt {
 	return out
 }
 
+// the first assignment in body (closures included) whose single right-hand side
+// satisfies pred: the names on its left-hand side ("" for a non-identifier)
+func c14FindAssign(body ast.Node, pred func(rhs ast.Expr) bool) ([]string, *ast.AssignStmt) {
+	var lhs []string
+	var node *ast.AssignStmt
+	if body == nil {
+		return nil, nil
+	}
+	ast.Inspect(body, func(n ast.Node) bool {
+		as, ok := n.(*ast.AssignStmt)
+		if !ok || node != nil || len(as.Rhs) != 1 || !pred(as.Rhs[0]) {
+			return true
+		}
+		node = as
+		for _, l := range as.Lhs {
+			lhs = append(lhs, c14Ident(l))
+		}
+		return false
+	})
+	return lhs, node
+}
+
+func c14TextIs(want string) func(ast.Expr) bool {
+	return func(e ast.Expr) bool { return c14Text(e) == want }
+}
+
 // ---- types.Architecture ---------------------------------------------------
 
 const c14Types = "pkg/build/types/types.go"
@@ -329,31 +355,68 @@ func genC14() {
 				}
 			}
 		}
+		// the MultiArch under construction: `m := &MultiArch{...}`
+		mv := ""
+		if l, _ := c14FindAssign(nm.Body, func(e ast.Expr) bool {
+			u, ok := e.(*ast.UnaryExpr)
+			if !ok || u.Op != token.AND {
+				return false
+			}
+			cl, ok := u.X.(*ast.CompositeLit)
+			return ok && c14Text(cl.Type) == "MultiArch"
+		}); len(l) == 1 {
+			mv = l[0]
+		}
+		if mv == "" {
+			fail("%s: NewMultiArch: `m := &MultiArch{...}` not recognised", multi)
+		}
+		contextsOf := mv + ".Contexts"
+		optsParam := ""
+		if nm.Type.Params != nil {
+			for _, p := range nm.Type.Params.List {
+				if _, ok := p.Type.(*ast.Ellipsis); ok && len(p.Names) == 1 {
+					optsParam = p.Names[0].Name
+				}
+			}
+		}
 		ctxOK := false
 		optsOK := false
 		for _, r := range c14Ranges(nm.Body, archsParam, false) {
 			v := c14Ident(r.Value)
-			for _, as := range c14IndexAssigns(r.Body, "m.Contexts") {
+			for _, as := range c14IndexAssigns(r.Body, contextsOf) {
 				if c14Ident(as.Lhs[0].(*ast.IndexExpr).Index) == v && v != "" {
 					ctxOK = true
 				}
 			}
-			// shared options: a clone of opts plus WithArch(arch) is what New receives
-			txt := c14Text(r.Body)
-			if strings.Contains(txt, "bopts := slices.Clone(opts)") && strings.Contains(txt, "bopts = append(bopts, WithArch("+v+"))") && strings.Contains(txt, "New(ctx, fs, bopts...)") {
-				optsOK = true
+			// shared options: New receives a clone of the options plus WithArch(arch)
+			if l, _ := c14FindAssign(r.Body, c14TextIs("slices.Clone("+optsParam+")")); len(l) == 1 && l[0] != "" && optsParam != "" {
+				b := l[0]
+				_, app := c14FindAssign(r.Body, c14TextIs("append("+b+", WithArch("+v+"))"))
+				passed := false
+				ast.Inspect(r.Body, func(n ast.Node) bool {
+					if c, ok := n.(*ast.CallExpr); ok && c14Text(c.Fun) == "New" && len(c.Args) == 3 && c.Ellipsis.IsValid() && c14Ident(c.Args[2]) == b {
+						passed = true
+					}
+					return true
+				})
+				if app != nil && len(app.Lhs) == 1 && c14Ident(app.Lhs[0]) == b && passed {
+					optsOK = true
+				}
 			}
 		}
 		if !ctxOK {
-			fail("%s: NewMultiArch: `for _, arch := range %s { ... m.Contexts[arch] = c }` not recognised", multi, archsParam)
+			fail("%s: NewMultiArch: `for _, arch := range %s { ... %s[arch] = c }` not recognised", multi, archsParam, contextsOf)
 		}
 		add("contexts-keyed-by", "the architecture")
-		add("context-options", map[bool]string{true: "clone of the shared options + WithArch(arch)", false: "other"}[optsOK])
+		if !optsOK {
+			fail("%s: NewMultiArch: every context is not built from `slices.Clone(%s)` + WithArch(arch)", multi, optsParam)
+		}
+		add("context-options", "clone of the shared options + WithArch(arch)")
 		// ByArch: `for arch, bc := range m.Contexts { apks[KEY] = bc.apk }`
 		var keyExpr ast.Expr
 		keyVar := ""
 		mapName := ""
-		for _, r := range c14Ranges(nm.Body, "m.Contexts", false) {
+		for _, r := range c14Ranges(nm.Body, contextsOf, false) {
 			k, v := c14Ident(r.Key), c14Ident(r.Value)
 			ast.Inspect(r.Body, func(n ast.Node) bool {
 				as, ok := n.(*ast.AssignStmt)
@@ -383,7 +446,7 @@ func genC14() {
 			fmt.Fprintf(&g.buf, "(* the same expression evaluated on an architecture string *)\nDefinition byarch_key (a : string) : string := %s.\n", body)
 			// every context receives that very map
 			shared := false
-			for _, r := range c14Ranges(nm.Body, "m.Contexts", false) {
+			for _, r := range c14Ranges(nm.Body, contextsOf, false) {
 				v := c14Ident(r.Value)
 				ast.Inspect(r.Body, func(n ast.Node) bool {
 					if as, ok := n.(*ast.AssignStmt); ok && len(as.Lhs) == 1 && len(as.Rhs) == 1 &&
@@ -542,129 +605,197 @@ func genC14() {
 	}
 
 	// ---- disqualifyDifference --------------------------------------------------------
+	// Local names are discovered from the statements that bind them, so that
+	// renaming a local is not a change of shape.
 	parts := []string{}
 	if dd := findFunc(repoGo, "", "disqualifyDifference"); dd != nil {
 		byArch := ""
 		if dd.Type.Params != nil && len(dd.Type.Params.List) == 2 && len(dd.Type.Params.List[1].Names) == 1 {
 			byArch = dd.Type.Params.List[1].Names[0].Name
 		}
+		// the result: `dq := map[*RepositoryPackage]string{}` ... `return dq`
+		dq := ""
+		if l, _ := c14FindAssign(dd.Body, func(e ast.Expr) bool {
+			cl, ok := e.(*ast.CompositeLit)
+			return ok && c14Text(cl.Type) == "map[*RepositoryPackage]string" && len(cl.Elts) == 0
+		}); len(l) == 1 {
+			dq = l[0]
+		}
+		if n := len(dd.Body.List); dq == "" || n == 0 {
+			fail("%s: disqualifyDifference: `dq := map[*RepositoryPackage]string{}` not recognised", repoGo)
+		} else if rs, ok := dd.Body.List[n-1].(*ast.ReturnStmt); !ok || len(rs.Results) != 1 || c14Ident(rs.Results[0]) != dq {
+			fail("%s: disqualifyDifference does not end with `return %s`", repoGo, dq)
+		}
 		// early return: `if len(byArch) == 1 { return dq }`
 		early := false
 		for _, st := range dd.Body.List {
-			if is, ok := st.(*ast.IfStmt); ok && c14Text(is.Cond) == "len("+byArch+") == 1" && len(is.Body.List) == 1 {
-				if _, ok := is.Body.List[0].(*ast.ReturnStmt); ok {
+			if is, ok := st.(*ast.IfStmt); ok && c14Text(is.Cond) == "len("+byArch+") == 1" && len(is.Body.List) == 1 && is.Else == nil {
+				if rs, ok := is.Body.List[0].(*ast.ReturnStmt); ok && len(rs.Results) == 1 && c14Ident(rs.Results[0]) == dq {
 					early = true
 				}
 			}
 		}
 		if !early {
-			fail("%s: disqualifyDifference: `if len(%s) == 1 { return dq }` not recognised", repoGo, byArch)
+			fail("%s: disqualifyDifference: `if len(%s) == 1 { return %s }` not recognised", repoGo, byArch, dq)
 		}
 		add("dq-one-architecture", "returns the empty set")
-		// first loop: for arch, indexes := range byArch { ... allowed[pkg.Name] ... versions[pkg.Version] = struct{}{} ... perArch[arch] = allowed }
+		// first loop: for arch, indexes := range byArch { for _, index := range indexes { for _, pkg := range index.Packages() {
+		//   versions := allowed[pkg.Name] ...; versions[pkg.Version] = struct{}{}; allowed[pkg.Name] = versions } }; perArch[arch] = allowed }
 		perArch := ""
-		fields := []string{}
+		recorded := false
 		for _, r := range c14Ranges(dd.Body, byArch, false) {
-			k := c14Ident(r.Key)
-			txt := c14Text(r.Body)
-			ast.Inspect(r.Body, func(n ast.Node) bool {
-				as, ok := n.(*ast.AssignStmt)
-				if !ok || len(as.Lhs) != 1 {
-					return true
+			k, v := c14Ident(r.Key), c14Ident(r.Value)
+			if k == "" || v == "" {
+				continue
+			}
+			for _, ri := range c14Ranges(r.Body, v, false) {
+				ixv := c14Ident(ri.Value)
+				for _, rp := range c14Ranges(ri.Body, ixv+".Packages()", false) {
+					pv := c14Ident(rp.Value)
+					if pv == "" {
+						continue
+					}
+					// versions[pkg.Version] = struct{}{}
+					var vs, allowed string
+					ast.Inspect(rp.Body, func(n ast.Node) bool {
+						as, ok := n.(*ast.AssignStmt)
+						if !ok || len(as.Lhs) != 1 || len(as.Rhs) != 1 || as.Tok != token.ASSIGN {
+							return true
+						}
+						ix, ok := as.Lhs[0].(*ast.IndexExpr)
+						if !ok {
+							return true
+						}
+						if c14Text(ix.Index) == pv+".Version" && c14Text(as.Rhs[0]) == "struct{}{}" {
+							vs = c14Ident(ix.X)
+						}
+						if c14Text(ix.Index) == pv+".Name" && vs != "" && c14Ident(as.Rhs[0]) == vs {
+							allowed = c14Ident(ix.X)
+						}
+						return true
+					})
+					if vs == "" || allowed == "" {
+						continue
+					}
+					// the set written to is the one read from allowed[pkg.Name]
+					if l, _ := c14FindAssign(rp.Body, c14TextIs(allowed+"["+pv+".Name]")); len(l) < 1 || l[0] != vs {
+						continue
+					}
+					// perArch[arch] = allowed
+					ast.Inspect(r.Body, func(n ast.Node) bool {
+						as, ok := n.(*ast.AssignStmt)
+						if ok && len(as.Lhs) == 1 && len(as.Rhs) == 1 && c14Ident(as.Rhs[0]) == allowed {
+							if ix, ok := as.Lhs[0].(*ast.IndexExpr); ok && c14Ident(ix.Index) == k {
+								perArch = c14Text(ix.X)
+								recorded = true
+							}
+						}
+						return true
+					})
 				}
-				if ix, ok := as.Lhs[0].(*ast.IndexExpr); ok && c14Ident(ix.Index) == k && k != "" {
-					perArch = c14Text(ix.X)
-				}
-				return true
-			})
-			if strings.Contains(txt, "[pkg.Name]") && strings.Contains(txt, "versions[pkg.Version] = struct{}{}") && strings.Contains(txt, "range index.Packages()") {
-				fields = []string{"Name", "Version"}
 			}
 		}
-		if perArch == "" || len(fields) != 2 {
-			fail("%s: disqualifyDifference: the loop that records name -> set of versions per architecture is not recognised", repoGo)
+		if !recorded {
+			fail("%s: disqualifyDifference: the loop that records, per architecture, name -> set of versions of every package of every index is not recognised", repoGo)
 		}
 		// second loop: both levels range over perArch
-		outer := c14Ranges(dd.Body, perArch, false)
 		allPairs := false
-		for _, o := range outer {
+		for _, o := range c14Ranges(dd.Body, perArch, false) {
 			ok1 := c14Ident(o.Key)
-			if ok1 == "" {
+			if ok1 == "" || perArch == "" {
 				continue
 			}
-			// the resolver of that architecture is built from byArch[arch]
-			if !strings.Contains(c14Text(o.Body), "newPkgResolver(ctx, "+byArch+"["+ok1+"])") {
+			// the resolver of that architecture: p := newPkgResolver(ctx, byArch[arch])
+			pl, pas := c14FindAssign(o.Body, func(e ast.Expr) bool {
+				c, ok := e.(*ast.CallExpr)
+				return ok && c14Text(c.Fun) == "newPkgResolver" && len(c.Args) == 2 && c14Text(c.Args[1]) == byArch+"["+ok1+"]"
+			})
+			if pas == nil || len(pl) != 1 || pl[0] == "" {
 				continue
 			}
+			pr := pl[0]
 			for _, in := range c14Ranges(o.Body, perArch, false) {
 				if in == o {
 					continue
 				}
 				ik, iv := c14Ident(in.Key), c14Ident(in.Value)
-				if ik == "" || iv == "" || len(in.Body.List) == 0 {
+				if ik == "" || iv == "" || len(in.Body.List) != 2 {
 					continue
 				}
-				// skip test
+				// skip test, then the marking loop; nothing else (a `break` would stop at the first sibling)
 				is, ok := in.Body.List[0].(*ast.IfStmt)
-				if !ok || len(is.Body.List) != 1 {
+				if !ok || len(is.Body.List) != 1 || is.Else != nil || is.Init != nil {
 					continue
 				}
 				c := c14Text(is.Cond)
 				br, isBr := is.Body.List[0].(*ast.BranchStmt)
-				if !(c == ik+" == "+ok1 || c == ok1+" == "+ik) || !isBr || br.Tok != token.CONTINUE {
+				if !(c == ik+" == "+ok1 || c == ok1+" == "+ik) || !isBr || br.Tok != token.CONTINUE || br.Label != nil {
 					continue
 				}
-				// every package of the resolver: range p.nameMap, range pkgVersions
-				txt := c14Text(in.Body)
-				if !strings.Contains(txt, "range p.nameMap") {
+				// every package of the resolver: for _, pkgVersions := range p.nameMap { for _, pkg := range pkgVersions {
+				rn, ok := in.Body.List[1].(*ast.RangeStmt)
+				if !ok || c14Text(rn.X) != pr+".nameMap" || c14Ident(rn.Value) == "" || len(rn.Body.List) != 1 {
 					continue
 				}
-				// lookups: versions, ok := allowed[pkg.Name]; _, ok := versions[pkg.Version]
-				if !strings.Contains(txt, "versions, ok := "+iv+"[pkg.Name]") || !strings.Contains(txt, "_, ok := versions[pkg.Version]; !ok") {
-					fail("%s: disqualifyDifference: the comparison is not by `%s[pkg.Name]` then `versions[pkg.Version]`", repoGo, iv)
+				rpk, ok := rn.Body.List[0].(*ast.RangeStmt)
+				if !ok || c14Ident(rpk.X) != c14Ident(rn.Value) || c14Ident(rpk.Value) == "" {
 					continue
 				}
-				// messages: dq[pkg.RepositoryPackage] = fmt.Sprintf(FMT, pkg.Filename(), otherArch)
-				n := 0
-				bad := false
-				ast.Inspect(in.Body, func(nd ast.Node) bool {
-					as, ok := nd.(*ast.AssignStmt)
-					if !ok || len(as.Lhs) != 1 || len(as.Rhs) != 1 {
-						return true
+				pv := c14Ident(rpk.Value)
+				// body: versions, ok := allowed[pkg.Name]; if !ok { dq[..] = msg; continue }; if _, ok := versions[pkg.Version]; !ok { dq[..] = msg }
+				if len(rpk.Body.List) != 3 {
+					fail("%s: disqualifyDifference: the body of the marking loop is not lookup-by-name / absent-name / absent-version", repoGo)
+					continue
+				}
+				look, ok0 := rpk.Body.List[0].(*ast.AssignStmt)
+				noName, ok1b := rpk.Body.List[1].(*ast.IfStmt)
+				noVer, ok2 := rpk.Body.List[2].(*ast.IfStmt)
+				if !ok0 || !ok1b || !ok2 || len(look.Lhs) != 2 || len(look.Rhs) != 1 || c14Text(look.Rhs[0]) != iv+"["+pv+".Name]" {
+					fail("%s: disqualifyDifference: the comparison does not start with `versions, ok := %s[%s.Name]`", repoGo, iv, pv)
+					continue
+				}
+				vs, okv := c14Ident(look.Lhs[0]), c14Ident(look.Lhs[1])
+				message := func(st ast.Stmt) bool { // dq[pkg.RepositoryPackage] = fmt.Sprintf(FMT, pkg.Filename(), otherArch)
+					as, ok := st.(*ast.AssignStmt)
+					if !ok || len(as.Lhs) != 1 || len(as.Rhs) != 1 || c14Text(as.Lhs[0]) != dq+"["+pv+".RepositoryPackage]" {
+						return false
 					}
-					if c14Text(as.Lhs[0]) != "dq[pkg.RepositoryPackage]" {
-						return true
-					}
-					n++
 					call, ok := as.Rhs[0].(*ast.CallExpr)
-					if !ok || c14Text(call.Fun) != "fmt.Sprintf" || len(call.Args) != 3 || c14Text(call.Args[1]) != "pkg.Filename()" || c14Ident(call.Args[2]) != ik {
-						bad = true
-						return true
+					if !ok || c14Text(call.Fun) != "fmt.Sprintf" || len(call.Args) != 3 || c14Text(call.Args[1]) != pv+".Filename()" || c14Ident(call.Args[2]) != ik {
+						return false
 					}
 					f, ok := strLit(call.Args[0])
 					if !ok || strings.Count(f, "%q") != 2 || strings.Count(f, "%") != 2 {
-						bad = true
-						return true
+						return false
 					}
-					p := strings.Split(f, "%q")
 					if len(parts) != 0 && strings.Join(parts, "%q") != f {
-						bad = true
+						return false
 					}
-					parts = p
+					parts = strings.Split(f, "%q")
 					return true
-				})
-				if n != 2 || bad {
-					fail("%s: disqualifyDifference: expected two assignments `dq[pkg.RepositoryPackage] = fmt.Sprintf(<two %%q>, pkg.Filename(), %s)` with one format", repoGo, ik)
+				}
+				good := c14Text(noName.Cond) == "!"+okv && noName.Init == nil && noName.Else == nil && len(noName.Body.List) == 2 && message(noName.Body.List[0])
+				if good {
+					b, isB := noName.Body.List[1].(*ast.BranchStmt)
+					good = isB && b.Tok == token.CONTINUE && b.Label == nil
+				}
+				if good {
+					ia, isA := noVer.Init.(*ast.AssignStmt)
+					good = isA && len(ia.Lhs) == 2 && len(ia.Rhs) == 1 && c14Text(ia.Rhs[0]) == vs+"["+pv+".Version]" && c14Text(noVer.Cond) == "!"+c14Ident(ia.Lhs[1]) &&
+						noVer.Else == nil && len(noVer.Body.List) == 1 && message(noVer.Body.List[0])
+				}
+				if !good {
+					fail("%s: disqualifyDifference: expected `if !ok { dq[pkg.RepositoryPackage] = fmt.Sprintf(<two %%q>, pkg.Filename(), %s); continue }` and `if _, ok := versions[pkg.Version]; !ok { <the same> }`", repoGo, ik)
 					continue
 				}
 				allPairs = true
 			}
 		}
 		if !allPairs {
-			fail("%s: disqualifyDifference: the marking loops do not range over all ordered pairs of architectures (`for arch := range %s { for otherArch, allowed := range %s { if otherArch == arch { continue } ...`)", repoGo, perArch, perArch)
+			fail("%s: disqualifyDifference: the marking loops do not range over all ordered pairs of architectures (`for arch := range %s { p := newPkgResolver(ctx, %s[arch]); for otherArch, allowed := range %s { if otherArch == arch { continue }; <every package of p> } }`)", repoGo, perArch, byArch, perArch)
 		}
 		add("dq-loops", "all ordered pairs of distinct architectures")
-		add("dq-compares", strings.Join(fields, "+"))
+		add("dq-compares", "Name+Version")
 		add("dq-marks", "every package of the architecture's own resolver (nameMap), by package object")
 	}
 	if len(parts) != 3 {
@@ -679,15 +810,14 @@ func genC14() {
 		if dg.Type.Params != nil && len(dg.Type.Params.List) == 2 && len(dg.Type.Params.List[1].Names) == 1 {
 			byArch = dg.Type.Params.List[1].Names[0].Name
 		}
-		txt := c14Text(dg.Body)
-		key := "other"
-		if strings.Contains(txt, "indexes := slices.Concat(slices.Collect(maps.Values("+byArch+"))...)") {
-			key = "concatenation of the map's values"
+		ixs := ""
+		if l, _ := c14FindAssign(dg.Body, c14TextIs("slices.Concat(slices.Collect(maps.Values("+byArch+"))...)")); len(l) == 1 {
+			ixs = l[0]
 		}
 		sortBy := "other"
 		ast.Inspect(dg.Body, func(n ast.Node) bool {
 			c, ok := n.(*ast.CallExpr)
-			if !ok || c14Text(c.Fun) != "slices.SortFunc" || len(c.Args) != 2 || c14Text(c.Args[0]) != "indexes" {
+			if !ok || c14Text(c.Fun) != "slices.SortFunc" || len(c.Args) != 2 || c14Ident(c.Args[0]) != ixs {
 				return true
 			}
 			fl, ok := c.Args[1].(*ast.FuncLit)
@@ -706,8 +836,43 @@ func genC14() {
 			}
 			return true
 		})
-		miss := strings.Contains(txt, "dq := disqualifyDifference(ctx, "+byArch+") "+recv+".fill(indexes, dq)")
-		hit := strings.Contains(txt, "if dq := "+recv+".find(indexes); dq != nil { return maps.Clone(dq) }")
+		// hit: `if dq := r.find(indexes); dq != nil { return maps.Clone(dq) }`
+		hit := false
+		ast.Inspect(dg.Body, func(n ast.Node) bool {
+			is, ok := n.(*ast.IfStmt)
+			if !ok || is.Init == nil || is.Else != nil || len(is.Body.List) != 1 {
+				return true
+			}
+			ia, ok := is.Init.(*ast.AssignStmt)
+			if !ok || len(ia.Lhs) != 1 || len(ia.Rhs) != 1 || c14Text(ia.Rhs[0]) != recv+".find("+ixs+")" {
+				return true
+			}
+			d := c14Ident(ia.Lhs[0])
+			if rs, ok := is.Body.List[0].(*ast.ReturnStmt); ok && c14Text(is.Cond) == d+" != nil" && len(rs.Results) == 1 && c14Text(rs.Results[0]) == "maps.Clone("+d+")" {
+				hit = true
+			}
+			return true
+		})
+		// miss: `dq := disqualifyDifference(ctx, byArch); r.fill(indexes, dq); return maps.Clone(dq)`
+		miss := false
+		if l, _ := c14FindAssign(dg.Body, func(e ast.Expr) bool {
+			c, ok := e.(*ast.CallExpr)
+			return ok && c14Text(c.Fun) == "disqualifyDifference" && len(c.Args) == 2 && c14Ident(c.Args[1]) == byArch
+		}); len(l) == 1 && l[0] != "" {
+			d := l[0]
+			filled := false
+			ast.Inspect(dg.Body, func(n ast.Node) bool {
+				if es, ok := n.(*ast.ExprStmt); ok && c14Text(es.X) == recv+".fill("+ixs+", "+d+")" {
+					filled = true
+				}
+				return true
+			})
+			if n := len(dg.Body.List); n > 0 && filled {
+				if rs, ok := dg.Body.List[n-1].(*ast.ReturnStmt); ok && len(rs.Results) == 1 && c14Text(rs.Results[0]) == "maps.Clone("+d+")" {
+					miss = true
+				}
+			}
+		}
 		trie := ""
 		if f := load(caches); f != nil {
 			ast.Inspect(f, func(n ast.Node) bool {
@@ -727,15 +892,25 @@ func genC14() {
 				return false
 			})
 		}
-		find := findFunc(caches, "disqualifyCache", "find")
-		fill := findFunc(caches, "disqualifyCache", "fill")
-		byObj := trie == "map[NamedIndex]*disqualifyCache" && find != nil && fill != nil &&
-			strings.Contains(c14Text(find.Body), ".children[indexes[0]]") && strings.Contains(c14Text(fill.Body), ".children[indexes[0]]") &&
-			!strings.Contains(c14Text(find.Body), "indexes[0].") && !strings.Contains(c14Text(fill.Body), "indexes[0].")
-		if key == "other" || sortBy == "other" || !miss || !hit || !byObj {
-			fail("%s: disqualifyCache.Get: key = concatenation of the map's values sorted by Name(), looked up by index OBJECT in a trie, hit returns a clone, miss computes disqualifyDifference and fills — not recognised (key=%q sort=%q hit=%v miss=%v trie=%q)", caches, key, sortBy, hit, miss, trie)
+		// find / fill descend by the index object itself
+		byObj := trie == "map[NamedIndex]*disqualifyCache"
+		for _, fn := range []string{"find", "fill"} {
+			fd := findFunc(caches, "disqualifyCache", fn)
+			if fd == nil || fd.Type.Params == nil || len(fd.Type.Params.List) < 1 || len(fd.Type.Params.List[0].Names) != 1 {
+				byObj = false
+				continue
+			}
+			p := fd.Type.Params.List[0].Names[0].Name
+			rv := c08Recv(fd)
+			t := c14Text(fd.Body)
+			if !strings.Contains(t, rv+".children["+p+"[0]]") || strings.Contains(t, p+"[0].") || !strings.Contains(t, "("+p+"[1:]") {
+				byObj = false
+			}
 		}
-		add("dq-cache-key", key+", sorted by "+sortBy+", compared by index object")
+		if ixs == "" || sortBy == "other" || !miss || !hit || !byObj {
+			fail("%s: disqualifyCache.Get: key = concatenation of the map's values sorted by Name(), looked up by index OBJECT in a trie, hit returns a clone, miss computes disqualifyDifference and fills — not recognised (concat=%v sort=%q hit=%v miss=%v trie=%q by-object=%v)", caches, ixs != "", sortBy, hit, miss, trie, byObj)
+		}
+		add("dq-cache-key", "concatenation of the map's values, sorted by Name(), compared by index object")
 		add("dq-cache-hit", "a clone of the stored set")
 		add("dq-cache-miss", "disqualifyDifference of the call's own map, stored under the key")
 	}
